@@ -201,6 +201,49 @@ fn gmm_body<F: SymFloat>() {
         .n_runs(n_runs)
         .max_n_iterations(max_iter)
         .init_method(init);
+    gmm_checks(p, n_clusters, tol, reg, n_runs, max_iter)
+}
+
+/// a generator that is never asked for a number (the parameter guard does not draw)
+#[derive(Clone)]
+pub struct NoRng;
+impl rand::RngCore for NoRng {
+    fn next_u32(&mut self) -> u32 {
+        0
+    }
+    fn next_u64(&mut self) -> u64 {
+        0
+    }
+    fn fill_bytes(&mut self, dest: &mut [u8]) {
+        for b in dest {
+            *b = 0;
+        }
+    }
+    fn try_fill_bytes(&mut self, dest: &mut [u8]) -> Result<(), rand::Error> {
+        self.fill_bytes(dest);
+        Ok(())
+    }
+}
+
+/// the same builder with the generator exchanged *after* every setter ran: `with_rng` must carry all values over
+fn gmm_with_rng_body<F: SymFloat>() {
+    let n_clusters: usize = kani::any();
+    let tol: F = fin();
+    let reg: F = fin();
+    let n_runs: u64 = kani::any();
+    let max_iter: u64 = kani::any();
+    let init = if kani::any() { GmmInitMethod::KMeans } else { GmmInitMethod::Random };
+    let p = GaussianMixtureModel::<F>::params(n_clusters)
+        .tolerance(tol)
+        .reg_covariance(reg)
+        .n_runs(n_runs)
+        .max_n_iterations(max_iter)
+        .init_method(init)
+        .with_rng(NoRng);
+    gmm_checks(p, n_clusters, tol, reg, n_runs, max_iter)
+}
+
+fn gmm_checks<F: SymFloat, R: rand::Rng + Clone>(p: linfa_clustering::GmmParams<F, R>, n_clusters: usize, tol: F, reg: F, n_runs: u64, max_iter: u64) {
     let acc = n_clusters >= 1 && tol > F::zero() && reg >= F::zero() && n_runs >= 1 && max_iter >= 1;
     let rej = !acc;
     let code = |e: &GmmError| match e {
@@ -249,4 +292,16 @@ fn c04_gmm_f64() {
 #[kani::unwind(9)]
 fn c04_gmm_f32() {
     gmm_body::<f32>()
+}
+
+#[kani::proof]
+#[kani::unwind(9)]
+fn c04_gmm_with_rng_f64() {
+    gmm_with_rng_body::<f64>()
+}
+
+#[kani::proof]
+#[kani::unwind(9)]
+fn c04_gmm_with_rng_f32() {
+    gmm_with_rng_body::<f32>()
 }
